@@ -5,7 +5,7 @@ import signal
 import subprocess
 import time
 
-from .scratch import Broken
+from .scratch import Broken, VERIF as VERIF_DIR
 
 RE_CHECKING = re.compile(r"^(?:Thread (\d+): )?Checking harness (\S+?)\.\.\.\s*$")
 RE_THREAD = re.compile(r"^Thread (\d+):\s*$")
@@ -183,6 +183,28 @@ def _kill_fat_cbmc(pgid, cap_kb, lf):
                 pass
 
 
+def qualify(scratch, name):
+    """crate-relative module path of a harness fn: <anchor module>::<overlay mod>::<fn>."""
+    import re as _re
+    for ov in scratch.group.get("overlays", []):
+        hp = os.path.join(VERIF_DIR, ov["harness"])
+        try:
+            src = open(hp).read()
+        except OSError:
+            continue
+        if not _re.search(r"fn\s+" + _re.escape(name) + r"\s*\(", src):
+            continue
+        f = ov["file"]
+        m = _re.search(r"/src/(.*)\.rs$", f)
+        if not m:
+            return None
+        parts = m.group(1).split("/")
+        if parts[-1] in ("mod", "lib", "main"):
+            parts = parts[:-1]
+        return "::".join(parts + [ov["mod"], name])
+    return None
+
+
 def kani_env(scratch):
     env = dict(os.environ)
     env["CARGO_NET_OFFLINE"] = "true"
@@ -202,9 +224,15 @@ def run_kani(scratch, harnesses, log_path, *, jobs=1, timeout_s=3600, harness_ti
     if g.get("features"):
         cmd += ["--features", ",".join(g["features"])]
     zflags = set(g.get("zflags", []))
-    for h in harnesses:
-        cmd += ["--harness", h]
-    cmd.append("--exact") if g.get("exact") else None
+    # `--harness X` is a substring match; always pass fully qualified names with --exact.
+    quals = [qualify(scratch, h) for h in harnesses]
+    if all(quals):
+        for q in quals:
+            cmd += ["--harness", q]
+        cmd.append("--exact")
+    else:
+        for h in harnesses:
+            cmd += ["--harness", h]
     if jobs and jobs > 1 and len(harnesses) > 1:
         cmd += ["-j", str(min(jobs, len(harnesses))), "--output-format", "terse"]
     if harness_timeout_s:
@@ -216,7 +244,7 @@ def run_kani(scratch, harnesses, log_path, *, jobs=1, timeout_s=3600, harness_ti
     cmd += list(g.get("kani_args", []))
     cmd += list(extra_args)
     for a in list(g.get("kani_args", [])) + list(extra_args):
-        if a == "--cbmc-args" or a.startswith("--cbmc-args"):
+        if a == "--cbmc-args" or a.startswith("--cbmc-args") or a.startswith("--no-"):
             zflags.add("unstable-options")
     for z in sorted(zflags):
         cmd += ["-Z", z]
